@@ -120,6 +120,7 @@ fn cov_common(agg: &Agg, scopes: Vec<Value>, complete: bool) -> Value {
         "cutoff_runs": agg.cut_runs, "cutoff_runs_with_open_subproblems": agg.cut_nontrivial, "primal_runs": agg.primal_runs, "primal_runs_below_optimum": agg.primal_below_opt,
         "merges": agg.merges, "restricted_compilations": agg.restricted, "relaxed_compilations": agg.relaxed, "relax_calls": agg.relax_calls, "cache_hits": agg.cache_hits,
         "dominance_prunings": agg.dom_pruned, "layers_checked_for_width": agg.layers_checked, "cache_twin_pairs": agg.twin_pairs, "cache_twin_pairs_with_different_explored_count": agg.cache_twin_diff_explored,
+        "max_polls_of_a_terminating_run_in_permille_of_the_fuel_bound": agg.max_fuel_permille,
         "outcomes": agg.outcomes, "monitor_hits_all_properties": agg.monitor_hits,
         "caps_hit": if complete { json!([]) } else { json!(["wall clock cap of the tier: see scopes[*].instances_done"]) },
     })
